@@ -85,6 +85,9 @@ func runFuncs(cfg *RunCfg, keys []string) int {
 					rc = 1
 				}
 				fmt.Printf("      %s  [%s]\n      %s\n", o.Desc, o.Pos, o.SMTFile)
+				if o.FailInst < len(o.Instances) && o.Instances[o.FailInst].Note != "" {
+					fmt.Printf("      failing conjunct: %s\n", o.Instances[o.FailInst].Note)
+				}
 				if cfg.Verbose {
 					fmt.Println(modelSummary(o.Model))
 					fmt.Println(o.Output)
@@ -164,11 +167,18 @@ func contractsForProperty(prog *Program, id string) ([]string, []*Contract) {
 	var keys []string
 	for _, k := range prog.CS.Order {
 		c := prog.CS.Funcs[k]
+		if c == nil {
+			continue // stale contract (function no longer exists)
+		}
 		if hasProp(c.Props, id) {
 			keys = append(keys, k)
 			continue
 		}
-		for _, cl := range append(append([]*Clause{}, c.Requires...), c.Ensures...) {
+		all := append(append(append([]*Clause{}, c.Requires...), c.Ensures...), c.Asserts...)
+		for _, ls := range c.Loops {
+			all = append(all, ls.Invariants...)
+		}
+		for _, cl := range all {
 			if hasProp(cl.Props, id) {
 				keys = append(keys, k)
 				break
@@ -208,17 +218,65 @@ func runProperty(cfg *RunCfg, id string) int {
 	return rc
 }
 
-func runAll(cfg *RunCfg) int {
+func runAll(cfg *RunCfg, writeBaseline bool) int {
 	prog := loadOrDie(cfg)
-	ids := claimedProperties(prog)
+	ids := manifestProperties(cfg)
+	if len(ids) == 0 {
+		ids = claimedProperties(prog)
+	}
 	worst := 0
+	base := map[string]map[string]map[string]interface{}{}
 	for _, id := range ids {
-		rc, _ := checkProperty(cfg, prog, id, time.Now())
+		rc, ev := checkProperty(cfg, prog, id, time.Now())
 		if rc > worst {
 			worst = rc
 		}
+		if ev != nil {
+			m := map[string]map[string]interface{}{}
+			cov := ev["coverage"].(map[string]interface{})
+			for _, o := range cov["per_obligation"].([]obReport) {
+				if o.Status == "discharged" {
+					m[o.Name] = map[string]interface{}{"solver": o.Backend, "time_s": o.TimeS}
+				}
+			}
+			base[id] = m
+		}
+	}
+	if writeBaseline {
+		if worst != 0 {
+			fmt.Fprintln(os.Stderr, "baseline NOT written: some property is not green")
+			return worst
+		}
+		dir := cfg.VerifDir
+		if dir == "" {
+			dir = "/verif"
+		}
+		data, _ := json.MarshalIndent(map[string]interface{}{"properties": base}, "", " ")
+		os.WriteFile(filepath.Join(dir, "baseline_obligations.json"), data, 0o644)
+		fmt.Println("baseline written")
 	}
 	return worst
+}
+
+// manifestProperties: the properties claimed in MANIFEST.json
+func manifestProperties(cfg *RunCfg) []string {
+	dir := cfg.VerifDir
+	if dir == "" {
+		dir = "/verif"
+	}
+	var m struct {
+		Checks []struct {
+			PropertyID string `json:"property_id"`
+		} `json:"checks"`
+	}
+	if !readJSON(filepath.Join(dir, "MANIFEST.json"), &m) {
+		return nil
+	}
+	var ids []string
+	for _, c := range m.Checks {
+		ids = append(ids, c.PropertyID)
+	}
+	return ids
 }
 
 func claimedProperties(prog *Program) []string {
@@ -338,6 +396,9 @@ func checkProperty(cfg *RunCfg, prog *Program, id string, start time.Time) (int,
 			switch {
 			case o.Kind == "cover":
 				sel = append(sel, o)
+			case o.Clause != nil && len(o.Clause.Props) > 0 && !hasProp(o.Clause.Props, id):
+				// a clause tagged for specific properties (e.g. safety preconditions, requires@C13) only
+				// counts for those properties; it is still assumed where the contract is used
 			case id == "C09" && !direct[k]:
 			case id == "C09" && autoC09[k] && o.Kind != "commute":
 			case isSafetyKind(o.Kind):
@@ -453,6 +514,12 @@ func checkProperty(cfg *RunCfg, prog *Program, id string, start time.Time) (int,
 		sort.Strings(missing)
 	}
 
+	// obligations that were discharged on the pinned tree and no longer exist: the property is no
+	// longer established for the code they covered (function under contract removed or renamed)
+	if len(missing) > 0 {
+		o := &Obligation{Name: "baseline.missing-obligations", Kind: "baseline", Desc: fmt.Sprintf("%d obligations of the baseline no longer exist", len(missing)), Status: "undecided", Output: strings.Join(missing, "\n") + "\nstale contracts: " + strings.Join(prog.CS.Stale, "; ")}
+		violations = append(violations, writeReplay(replayDir, id, o, &UnitResult{Key: "baseline", Reg: NewRegistry()}, "obligations discharged on the pinned tree have disappeared (contract key no longer matches the code): "+strings.Join(missing, ", "), false, prog, cfg))
+	}
 	// evidence
 	var funcs []map[string]interface{}
 	trusted := map[string]bool{}
@@ -481,6 +548,9 @@ func checkProperty(cfg *RunCfg, prog *Program, id string, start time.Time) (int,
 	}
 	for _, a := range engineAssumptions {
 		assumptions[a] = true
+	}
+	for _, st := range prog.CS.Stale {
+		assumptions["STALE contract (function no longer exists, contract skipped): "+st] = true
 	}
 	for _, s := range prog.CS.Sources {
 		assumptions[s] = true
